@@ -17,6 +17,7 @@ CLAIMS = {
  "C10": ("proof", "Proved for every low width wl, every strictly increasing rebased key list and every query: the model of pred() returns the rightmost stored key <= i and never selects beyond the population or reads outside low/high; the structure stores exactly the keys. Model tied by comparing wl/low/high/segments and pred()/search() outputs exactly. Range contract inherited from C01/C02 and judged per query (including far queries).", "6.10"),
  "C11": ("proof", "Proved for every sorted list with any duplicate structure, every query and every range satisfying the index contract: lower_bound/upper_bound (with the exponential search past the range)/count/contains equal the std algorithms. Judge: lb/ub/count/membership computed by the extracted counting functions on every query.", "6.11"),
  "C12": ("proof", "Byte-level round trip load(serialize) proved for all well-formed indexes and key lists; raw-file constructor proved equal to the range constructor; reopen returns the same data/file and an equal index (full equality incl. slopes for double). Judge: file bytes of both constructors compared with the model's bytes and with each other, answers of all four containers compared, file unchanged by reopen checked by the harness.", "6.12"),
+ "C16": ("proof", "Partial by nature. Proved in general (any thread count, any schedule): no shared write => no conflicting accesses in any interleaving and an unchanged shared memory (each call returns what it returns alone). The premise is discharged by a vm_compute check over the write-effect footprints of every query entry point REGENERATED from the clang AST of the current source on every run. Trusted: completeness of the AST effect extraction and the C++ memory model. Run-time side (finding replays only): ThreadSanitizer harness, 2..16 reader threads on each class, per-thread digests vs sequential.", "6.16"),
  "C17": ("proof", "Partial by nature. Proved: on the model, where every indexed read is checked, the query/update operations of the Elias-Fano, bucketing, mapped and dynamic classes return Ok on every in-domain input (no out-of-bounds read, no select beyond the population, no end() dereference). Not provable in this family: heap lifetime, allocator, library internals; the run-time side executes every engine's cases on the real code under AddressSanitizer/UBSan and reports any report as a violation with the case as replay.", "6.17"),
  "C18": ("proof", "The C entry points are driven directly (extern C only). Theorems are the general ones instantiated at run-time eps and the translated EPSILON_RECURSIVE: create returns NULL iff the data ends with the reserved value (equivalence proved), range arithmetic for every eps, dynamic wrappers refine the ordered map (C05). Partial like C01/C02 for the build/routing composition; judged per query and per call.", "6.18"),
  "C20": ("proof", "Decision rules proved as equivalences/implications on the models for every input (build rejects iff reserved last value; base rejected iff not a power of two; unsorted pair anywhere; reserved mapped value; lo>hi; too-wide coordinate anywhere; non-increasing key; negative epsilon). The malformed input stream places each violation at every position; exception kinds and the container state after a rejected insert are compared with the implementation.", "6.20"),
